@@ -7,11 +7,16 @@
  *   sched <shared> <init> <threads> <token>...            strict prefix, then FIRST policy
  *   loose <shared> <init> <threads> <token>...            same, but tokens that are not enabled are skipped
  *   dfs   <shared> <init> <threads> <depth> <maxSpurious> <maxRuns> <independence>
+ * shared  bit 0: mem.shared; bit 1 (value 3): every calloc/malloc of futex.c/map.c/list.c (compiled with
+ *         -Dcalloc=fxh_calloc -Dmalloc=fxh_malloc by futex_sched.py) is a scheduling point `alloc` too — a thread can be
+ *         suspended INSIDE the critical section of wait (after the comparison, before the map exists / before the enqueue)
+ *         while other threads run whatever does not need the mutex.  `al=` lists the indices of the schedule tokens that
+ *         resumed a thread from such a point (Model.Futex has no such points: the model replays the schedule without them).
  * init    `-` or `addr:width:value,...`      threads  `ops|ops|...` (threads 1,2,...)
  * ops     `w32:addr:expect:timeout` `w64:addr:expect:timeout` `n:addr:count` `s:addr:width:value`
  *
  * stdout, per execution (seed/sched: one line; dfs: one line per execution, then `done ...`):
- *   sched=<t,t,...> verdict=<ok|deadlock|crash|...> res=<r.r|r|...> st=<fin|blk|...> ev=<inv-resp.inv-x|...> map=<null|empty|nonempty> san=<none|kind> detail=<...>
+ *   sched=<t,t,...> verdict=<ok|deadlock|crash|...> res=<r.r|r|...> st=<fin|blk|...> ev=<inv-resp.inv-x|...> al=<-|i.i...> map=<null|empty|nonempty> san=<none|kind> detail=<...>
  */
 #include <stdio.h>
 #include <stdlib.h>
@@ -38,6 +43,18 @@ static thr T[MAX_T];
 static int nthr;
 static wasmMemory mem;
 static int shared_flag;
+static int alloc_points;
+#define MAX_AL 256
+static int al[MAX_AL], nal;
+
+/* allocation calls of the code under test (futex.c / map.c / list.c only) */
+static void alloc_point(void) {
+    if (!alloc_points || !sched_active()) return;
+    sched_point("alloc", &mem.futex);
+    if (nal < MAX_AL) al[nal++] = sched_steps() - 1;      /* the choice that resumed this thread */
+}
+void *fxh_calloc(size_t n, size_t m) { alloc_point(); return (calloc)(n, m); }
+void *fxh_malloc(size_t n) { alloc_point(); return (malloc)(n); }
 static char init_spec[512];
 
 static int parse_ops(char *s, thr *t) {
@@ -127,6 +144,8 @@ static void compose_result(void) {
             else sched_result("%s%d-x", k ? "." : "", T[i].inv[k]);
         }
     }
+    sched_result(" al=%s", nal ? "" : "-");
+    for (k = 0; k < nal; k++) sched_result("%s%d", k ? "." : "", al[k]);
     if (!mem.futex) sched_result(" map=null");
     else {
         Map *m = (Map *)mem.futex;
@@ -146,6 +165,7 @@ static int scenario(void *arg) {
     int i;
     (void)arg;
     memset(&mem, 0, sizeof mem);
+    nal = 0;
     mem.data = calloc(MEM_SIZE, 1);
     mem.size = MEM_SIZE; mem.pages = 1; mem.maxPages = 1;
     mem.shared = shared_flag ? true : false;
@@ -202,7 +222,8 @@ int main(void) {
         sched_config c;
         for (p = strtok_r(line, " \n", &save); p && n < 600; p = strtok_r(NULL, " \n", &save)) w[n++] = p;
         if (n < 4) { puts("err usage"); fflush(stdout); continue; }
-        shared_flag = atoi(w[1]);
+        shared_flag = atoi(w[1]) & 1;
+        alloc_points = (atoi(w[1]) & 2) != 0;
         snprintf(init_spec, sizeof init_spec, "%s", w[2]);
         if (!parse_threads(w[3])) { puts("err parse"); fflush(stdout); continue; }
         memset(&c, 0, sizeof c);
